@@ -323,6 +323,34 @@ def rule_filter_idiom(ctx: Ctx) -> None:
     fi = ctx.func(OF + "filter_objects")
     paths = enum_paths(ctx, fi)
     lps = loops_of(paths)
+    CRIT = ["is_gt", "target_labels", "ignore_attributes", "max_x_position_list", "max_y_position_list", "max_distance_list", "min_distance_list", "min_point_numbers",
+            "confidence_threshold_list", "target_uuids", "transforms"]
+    if not lps:
+        # the same filter written as a comprehension: [o for o in objects if _is_target_object(o, <every criterion under its own name>)]
+        done = False
+        for p in paths:
+            rv = p.retval
+            if rv is not None and not isinstance(rv, ast.ListComp):
+                rv = p.env.get(strip_v(S(rv))) or next((e.value for e in reversed(p.effects) if e.kind == "assign" and e.recv == strip_v(S(p.retval))), None)
+            if not (isinstance(rv, ast.ListComp) and len(rv.generators) == 1 and S(rv.generators[0].iter) == "objects" and len(rv.generators[0].ifs) == 1):
+                continue
+            v = U(rv.generators[0].target)
+            t = rv.generators[0].ifs[0]
+            ok = S(rv.elt) == v and isinstance(t, ast.Call) and S(t.func) == "_is_target_object"
+            ctx.check(ok, "C10-filter-idiom", "filter_objects", "keep", "the comprehension does not keep exactly the elements that pass _is_target_object", fi=fi)
+            if ok:
+                kw = {k.arg: S(k.value) for k in t.keywords}
+                ctx.check(kw.get("dynamic_object", S(t.args[0]) if t.args else None) == v, "C10-filter-idiom", "filter_objects", "subject", "the predicate is not applied to the element", fi=fi)
+                for k in CRIT:
+                    ctx.check(kw.get(k) == k, "C10-filter-idiom", "filter_objects", f"forward:{k}", f"`{k}` reaches the predicate as `{kw.get(k)}`", fi=fi, expected=k, found=str(kw.get(k)))
+            done = True
+        ctx.require(done, "filter_objects: neither the filter loop nor an equivalent comprehension over objects was recognised")
+    else:
+        _filter_loop_form(ctx, fi, paths, lps, CRIT)
+    _filter_results_form(ctx)
+
+
+def _filter_loop_form(ctx: Ctx, fi, paths, lps, CRIT) -> None:
     ctx.require(len(lps) == 1 and S(lps[0].text) == "objects", "filter_objects: loop over objects not recognised")
     lp = lps[0]
     o = U(lp.node.target)
@@ -349,6 +377,9 @@ def rule_filter_idiom(ctx: Ctx) -> None:
         init = [S(e.value) for e in p.effects if e.kind == "assign" and e.recv == "filtered_objects"]
         ctx.check(init == ["[]"], "C10-filter-idiom", "filter_objects", "fresh", f"the output list is initialised as {init}; it must be a fresh empty list", fi=fi)
         ctx.check(p.retval is not None and strip_v(S(p.retval)) == "filtered_objects", "C10-filter-idiom", "filter_objects", "returns", "does not return the list it built", fi=fi)
+
+
+def _filter_results_form(ctx: Ctx) -> None:
     # filter_object_results: same idiom (details of the two-sided check are in C03)
     fr = ctx.func(OF + "filter_object_results")
     pr = enum_paths(ctx, fr)
